@@ -326,6 +326,11 @@ def _simulate_built(unit, P, root, uidx, comp, drv, scratch, res):
         if crash is not None:
             stats["crashes"] += 1
             _add_crash(res, crash, ctx, "scheduled")
+            if crash[0] != "harness" and "L2" in want:
+                # the one-byte schedule of the same input(s) ran to completion: dying under another schedule
+                # (moved buffer, relocated struct, other sessions in between, different cuts) is an outcome that
+                # depends on the schedule
+                _add(res, oracles.V("L2", "schedule-dies-where-canonical-completes", -1, 0, crash[1]), ctx, "scheduled")
             continue
         _account(stats, run)
         oplines = [l for l in lines if l.startswith("OP ")]
